@@ -84,8 +84,9 @@ Definition SP : N := 32.
 Definition COLON : N := 58.
 
 (* Python slices raw[:n], raw[n:] for n >= 0 *)
-Definition take (n : N) (l : bytes) : bytes := firstn (N.to_nat n) l.
-Definition drop (n : N) (l : bytes) : bytes := skipn (N.to_nat n) l.
+(* the bound is clamped to the length first: N.to_nat of a huge length field must never be computed *)
+Definition take (n : N) (l : bytes) : bytes := firstn (N.to_nat (N.min n (len l))) l.
+Definition drop (n : N) (l : bytes) : bytes := skipn (N.to_nat (N.min n (len l))) l.
 
 (* list helpers for the correspondence files *)
 Fixpoint mismatches_aux {A} (f : A -> bool) (l : list A) (i : N) : list N :=
